@@ -124,7 +124,34 @@ var c03Breakers = []string{"{'a':1", "{'a':", "{'a'", "g9(1,", "g9(", "[1,2", "[
 
 type flagCfg struct{ wod, coc, fate, dc, nostmt bool }
 
+// c03Endings: every kind of value a program can end in, in every context that emits code after it
+func c03Endings() []string {
+	prelude := "arr = [[7,8],[9,10]]; dd = {'a': [1,2], 'b': {'c': 3}}; func ff(n) { [n, n+1] }; ss = 'abc'; nn = 4; "
+	ends := []string{"5", "nn", "arr[0]", "arr[0][1]", "arr[1:]", "ff(2)", "ff(2)[0]", "arr.len()", "arr[0].len()", "dd.a", "dd.a[0]", "dd['b'].c", "(nn)", "(arr)[0]", "'xy'", "ss[1]", "`a{nn}`",
+		"[1,2]", "[1,2][0]", "{'k': 1}", "{'k': [1]}.k", "2d1", "(2)d1", "-nn", "arr[0] + arr[1]", "nn ? arr[0] : 1", "this"}
+	ctxs := []string{"%s", "x = %s", "100 + %s", "-%s", "nn ? 1 : %s", "nn && %s", "nn ?? %s", "y = x = %s", "dd.z = %s", "arr[0] = %s", "1 < %s", "&cv = %s"}
+	var out []string
+	for _, e := range ends {
+		for _, c := range ctxs {
+			out = append(out, prelude+fmt.Sprintf(c, e))
+		}
+	}
+	return out
+}
+
 func init() {
+	subcmds["c03-endings"] = func(args []string) int {
+		fs := newFlags("c03-endings")
+		out := fs.String("out", "", "inputs ndjson {src}")
+		fs.Parse(args)
+		w := newNDWriter(*out)
+		defer w.Close()
+		for _, s := range c03Endings() {
+			w.Write(map[string]any{"src": s})
+		}
+		emitSummary(map[string]any{"inputs": w.n})
+		return 0
+	}
 	subcmds["c03-exec"] = func(args []string) int {
 		fs := newFlags("c03-exec")
 		in := fs.String("in", "", "oracle output prefix")
@@ -258,7 +285,13 @@ func init() {
 		in := fs.String("in", "", "inputs ndjson {src}")
 		out := fs.String("out", "", "events ndjson")
 		tailsPer := fs.Int("tails", 3, "tails per program")
+		allTails := fs.Bool("alltails", false, "every tail, glued on and after a blank (directed endings family)")
+		shard := fs.String("shard", "0/1", "i/n: inputs whose index is i modulo n")
+		every := fs.Int("every", 1, "take every n-th input of the shard (rotating with the seed)")
 		fs.Parse(args)
+		var si, sn int
+		fmt.Sscanf(*shard, "%d/%d", &si, &sn)
+		lineNo := -1
 		installRollHook()
 		r := rand.New(rand.NewSource(envSeed()))
 		w := newNDWriter(*out)
@@ -270,6 +303,10 @@ func init() {
 				Src string `json:"src"`
 			}
 			if json.Unmarshal(line, &rec) != nil || len(rec.Src) > 300 {
+				return
+			}
+			lineNo++
+			if lineNo%sn != si || (lineNo/sn+int(envSeed()))%*every != 0 {
 				return
 			}
 			for _, u := range []string{"dir(", ".keys(", ".values(", ".items("} { // results in map order: unspecified
@@ -291,11 +328,17 @@ func init() {
 				vm.Config.OpCountLimit = 20000
 				return vm
 			}
-			for t := 0; t < *tailsPer; t++ {
+			nt := *tailsPer
+			if *allTails {
+				nt = 1 + 2*len(c03Breakers)
+			}
+			for t := 0; t < nt; t++ {
 				tail := c03Breakers[r.Intn(len(c03Breakers))]
 				sep := seps[r.Intn(len(seps))]
 				if t == 0 {
 					tail, sep = "", ""
+				} else if *allTails {
+					tail, sep = c03Breakers[(t-1)/2], []string{"", " "}[(t-1)%2]
 				}
 				input := rec.Src + sep + tail
 				o1 := observeRun(mk(), input, nil, false, false)
